@@ -128,10 +128,27 @@ LOCKNAME = "MAIN_WRITELOCK"
 # are column files that a reader opens on first use; only the term index / postings are opened with the reader.
 OPEN_PARTS = ("doc_count", "keys", "stored", "terms")       # what check_fresh looks at (opens the stored-fields column)
 LAZY_PARTS = ("lengths", "vectors", "columns", "leaf_columns", "sorted_by_n", "by_c_column", "scored")
-ALL_PARTS = OPEN_PARTS + LAZY_PARTS
-COLUMN_BACKED = ("keys", "stored") + LAZY_PARTS             # can be affected by the listed loose-segment finding
-# not derived from the dict model: compared only between two probes of the same held searcher
-UNMODELLED = ("scored", "leaf_columns")
+# further read APIs (never part of check_fresh; in the 'lazy' / 'untouched' modes first used after the hold):
+#   iter_docs     IndexReader.iter_docs / all_stored_fields
+#   positions     postings of field t with their positions (Matcher.value_as("positions"))
+#   vector_as     IndexReader.vector_as("frequency" / "positions")
+#   lexicon       field_terms, lexicon, expand_prefix, iter_field, indexed_field_names, (field, text) in reader
+#   term_stats    term_info (weight, doc frequency, min/max length, max weight, min/max id), doc_frequency, frequency,
+#                 field_length, most_frequent_terms
+#   length_stats  min_field_length / max_field_length / Searcher.avg_field_length (read the lengths column)
+#   documents     Searcher.document(id=..) / document_number(id=..) / documents(k=..)
+#   sorted_more   top-3 of a reversed sort by n; top-2 of a term query sorted by n
+#   similar       Searcher.key_terms / more_like
+EXTRA_PARTS = ("iter_docs", "positions", "vector_as", "lexicon", "term_stats", "length_stats", "documents",
+               "sorted_more", "similar")
+ALL_PARTS = OPEN_PARTS + LAZY_PARTS + EXTRA_PARTS
+# can be affected by the listed loose-segment finding: the parts that read per-document column files (stored fields,
+# lengths, vector offsets / vector postings, sort columns), which a W3 reader opens on first use
+COLUMN_BACKED = ("keys", "stored") + LAZY_PARTS + ("iter_docs", "vector_as", "length_stats", "documents", "sorted_more",
+                                                   "similar")
+# not derived from the dict model: compared only between two probes of the same held searcher (term statistics and the
+# lexicon of a segment with deletions still count the deleted documents; similarity scores are C09's business)
+UNMODELLED = ("scored", "leaf_columns", "lexicon", "term_stats", "length_stats", "similar")
 # the user-facing column API: IndexReader.has_column / column_reader, sort and group on a column
 USER_COLUMN_PARTS = ("columns", "leaf_columns", "sorted_by_n", "by_c_column")
 READ_OK_ATTR = "_vf_c03_parts_read_ok"
@@ -270,6 +287,90 @@ def fingerprint(searcher, parts=None, errors=None):
     run("by_c_column", by_c_column)
     run("scored", lambda: [(h["id"], round(h.score, 6)) for h in
                            searcher.search(query.Or([query.Term("t", "alfa"), query.Term("t", "bravo")]), limit=None)])
+    if not set(want) & set(EXTRA_PARTS):
+        return out
+
+    def txt(b):
+        return b.decode("utf-8") if isinstance(b, bytes) else b
+
+    def iter_docs():
+        a = {}
+        dns = []
+        for dn, sf in r.iter_docs():
+            dns.append(dn)
+            a[sf.get("id", "?doc%d" % dn)] = dict(sf)
+        return {"iter_docs": a, "docnums_are_all_doc_ids": sorted(dns) == sorted(km),
+                "all_stored_fields": sorted(sf.get("id", "?") for sf in r.all_stored_fields())}
+    run("iter_docs", iter_docs)
+
+    def positions():
+        res = {}
+        for tbytes in r.lexicon("t"):
+            m = r.postings("t", tbytes)
+            plist = []
+            while m.is_active():
+                dn = m.id()
+                plist.append((km[dn][0] if dn in km else "?deleted%d" % dn, list(m.value_as("positions"))))
+                m.next()
+            res[txt(tbytes)] = sorted(plist)
+        return res
+    run("positions", positions)
+
+    def vector_as():
+        res = {}
+        for dn in km:
+            if r.has_vector(dn, "t"):
+                res[km[dn][0]] = {"frequency": sorted((txt(t), int(v)) for t, v in r.vector_as("frequency", dn, "t")),
+                                  "positions": sorted((txt(t), list(v)) for t, v in r.vector_as("positions", dn, "t"))}
+        return res
+    run("vector_as", vector_as)
+
+    def lexicon():
+        return {"field_terms": list(r.field_terms("t")), "lexicon_id": [txt(b) for b in r.lexicon("id")],
+                "expand_prefix": [[txt(b) for b in r.expand_prefix("t", p)] for p in ("a", "b", "fo", "z")],
+                "iter_field": [(txt(b), ti.doc_frequency()) for b, ti in r.iter_field("t", prefix="c")],
+                "indexed_field_names": sorted(r.indexed_field_names()),
+                "contains": [("t", w_) in r for w_ in VOCAB]}
+    run("lexicon", lexicon)
+
+    def term_stats():
+        res = {}
+        for fieldname, tbytes in r.all_terms():
+            if fieldname not in ("t", "id", "k"):
+                continue
+            ti = r.term_info(fieldname, tbytes)
+            res["%s:%s" % (fieldname, txt(tbytes))] = (
+                round(ti.weight(), 6), ti.doc_frequency(), ti.min_length(), ti.max_length(), round(ti.max_weight(), 6),
+                ti.min_id(), ti.max_id(), r.doc_frequency(fieldname, tbytes), round(r.frequency(fieldname, tbytes), 6))
+        return {"terms": res, "field_length": (r.field_length("t"), searcher.field_length("t")),
+                "most_frequent_terms": [(round(w_, 6), txt(b)) for w_, b in r.most_frequent_terms("t", 3)]}
+    run("term_stats", term_stats)
+    run("length_stats", lambda: (r.min_field_length("t"), r.max_field_length("t"),
+                                 round(searcher.avg_field_length("t"), 6)))
+
+    def documents():
+        ks = sorted(k for k, _ in km.values())
+        sample = sorted(set(ks[:1] + ks[len(ks) // 2:len(ks) // 2 + 1] + ks[-1:])) + ["nokey"]
+        by_id, by_num = {}, {}
+        for k in sample:
+            sf = searcher.document(id=k)
+            by_id[k] = None if sf is None else dict(sf)
+            dn = searcher.document_number(id=k)
+            by_num[k] = None if dn is None else (km[dn][0] if dn in km else "?doc%d" % dn)
+        return {"document": by_id, "document_number": by_num,
+                "documents_k_red": sorted(sf.get("id", "?") for sf in searcher.documents(k="red"))}
+    run("documents", documents)
+    run("sorted_more", lambda: {
+        "n_reversed_top3": [h["id"] for h in searcher.search(query.Every(), limit=3, sortedby="n", reverse=True)],
+        "alfa_by_n_top2": [h["id"] for h in searcher.search(query.Term("t", "alfa"), limit=2, sortedby="n")]})
+
+    def similar():
+        dns = sorted(km)[:3]
+        if not dns:
+            return None
+        return {"key_terms": [(txt(t), round(sc, 6)) for t, sc in searcher.key_terms(dns, "t", numterms=3)],
+                "more_like": [(h["id"], round(h.score, 6)) for h in searcher.more_like(dns[0], "t", top=3)]}
+    run("similar", similar)
     return out
 
 
@@ -313,6 +414,35 @@ def expected(model, parts=None):
         for k in keys:
             groups.setdefault(model[k]["c"], []).append(k)
         out["by_c_column"] = {"order": sorted(keys, key=lambda k: (model[k]["c"], model[k]["n"])), "groups": groups}
+    if "iter_docs" in want:
+        out["iter_docs"] = {"iter_docs": dict((k, dict((f, model[k][f]) for f in ("id", "t", "n", "k")
+                                                        if model[k].get(f) is not None)) for k in keys),
+                            "docnums_are_all_doc_ids": True, "all_stored_fields": keys}
+    if "positions" in want:
+        pos = {}
+        for k in keys:
+            words = model[k]["t"].split()
+            for w in set(words):
+                pos.setdefault(w, []).append((k, [i for i, x in enumerate(words) if x == w]))
+        out["positions"] = dict((w, sorted(v)) for w, v in pos.items())
+    if "vector_as" in want:
+        vec = {}
+        for k in keys:
+            words = model[k]["t"].split()
+            vec[k] = {"frequency": sorted((w, words.count(w)) for w in set(words)),
+                      "positions": sorted((w, [i for i, x in enumerate(words) if x == w]) for w in set(words))}
+        out["vector_as"] = vec
+    if "documents" in want:
+        sample = sorted(set(keys[:1] + keys[len(keys) // 2:len(keys) // 2 + 1] + keys[-1:])) + ["nokey"]
+        out["documents"] = {
+            "document": dict((k, None if k not in model else dict((f, model[k][f]) for f in ("id", "t", "n", "k")
+                                                                   if model[k].get(f) is not None)) for k in sample),
+            "document_number": dict((k, k if k in model else None) for k in sample),
+            "documents_k_red": [k for k in keys if "red" in (model[k].get("k") or "").split()]}
+    if "sorted_more" in want:
+        byn = sorted(keys, key=lambda k: model[k]["n"])
+        out["sorted_more"] = {"n_reversed_top3": byn[::-1][:3],
+                              "alfa_by_n_top2": [k for k in byn if "alfa" in model[k]["t"].split()][:2]}
     return out
 
 
@@ -331,6 +461,8 @@ def comparable(fp):
         elif part == "columns":
             # no column at all: right only for an index without documents
             out[part] = dict((f, {} if cv is None else cv) for f, cv in v.items())
+        elif part == "positions":
+            out[part] = dict((t, pl) for t, pl in v.items() if pl)      # (see "terms")
         else:
             out[part] = v
     return out
@@ -532,7 +664,8 @@ def segment_view(w):
             for dn in range(lr.doc_count_all()):
                 sf = lr.stored_fields(dn)
                 rows.append((off + dn, sf.get("id"), sf.get("n"), bool(lr.is_deleted(dn))))
-            out.append((lr.segment().segment_id(), rows))
+            seg = lr.segment()
+            out.append((seg.segment_id() if seg is not None else None, rows))
     finally:
         r.close()
     return out
@@ -1053,6 +1186,7 @@ def reader_thread(env, k):
         elif act == "refresh":
             old_segs = set(seg.segment_id() for seg in (r.segments() or []))
             old_leaves = set(id(lr) for lr, _ in r.leaf_readers())
+            old_dels = dict((seg.segment_id(), frozenset(seg.deleted_docs())) for seg in (r.segments() or []))
             info2 = dict(info)
             info2["refresh_from_generation"] = g
             s2, cb = open_searcher(env, rng, info2, refresh_from=sr)
@@ -1094,6 +1228,26 @@ def reader_thread(env, k):
                 ctx.count("refresh.reused_segment_readers")
             if g2 != g:
                 ctx.count("refresh.to_newer_generation")
+                # segments that survive the refresh with OTHER deletions (their open readers must not be re-used as
+                # they are), in particular with the same NUMBER of deletions (un-delete one, delete another)
+                changed = same_count = regrown = 0
+                for seg in (r2.segments() or []):
+                    od = old_dels.get(seg.segment_id())
+                    if od is None:
+                        continue
+                    nd = frozenset(seg.deleted_docs())
+                    if nd != od:
+                        changed += 1
+                        same_count += len(nd) == len(od)
+                        regrown += bool(od - nd)
+                if changed:
+                    ctx.count("refresh.kept_segment_with_changed_deletions")
+                    if len(new_segs - old_segs) > 0:
+                        ctx.count("refresh.kept_segment_with_changed_deletions_and_new_segment")
+                if same_count:
+                    ctx.count("refresh.kept_segment_with_same_count_other_deletions")
+                if regrown:
+                    ctx.count("refresh.kept_segment_with_undeleted_document")
             sr = s2
             fresh = True
         s.yield_("reader-iteration", lower=True)
